@@ -8,7 +8,7 @@ For every /tmp/mut/out/<prop>/m<i>/: in a scratch copy of /repo (outside /repo a
 Only then is it kept as /verif/seeded/<prop>-m<i>/{patch.diff, demo.rs, notes.md, meta.json}."""
 import json, os, re, shutil, subprocess, sys, concurrent.futures as cf
 
-SRC = "/tmp/mut/out"
+SRC = os.environ.get("SEEDED_SRC", "/tmp/mut/out")
 DST = "/verif/seeded"
 
 
